@@ -61,6 +61,16 @@ class Obj:
         await asyncio.sleep(0)
         return ("ret", tag) if (name, func, loop) == ("n", "f", "l") else ("args-lost", tag)
 
+    async def coro_slow_cleanup(self, tag, seconds):
+        """in flight for a long time; when cancelled its clean-up takes `seconds`, then it reports"""
+        self._rec(tag)
+        try:
+            await asyncio.sleep(60)
+        except asyncio.CancelledError:
+            await asyncio.sleep(seconds)
+            return ("cleaned", tag)
+        return ("ret", tag)
+
     async def coro_slow(self, tag, seconds):
         """legitimately slow on the owner's loop (a reset wait, several retransmissions)"""
         self._rec(tag)
@@ -245,6 +255,77 @@ async def slow_scenario(seconds):
     return out
 
 
+async def slow_stop_scenario(seconds):
+    """the owner's loop is stopped while a coroutine call is in flight whose clean-up on cancellation takes `seconds`: the caller
+    still gets the outcome once the clean-up has finished"""
+    import bellows.thread as th
+
+    thread = th.EventLoopThread()
+    await thread.start()
+    obj = Obj()
+    proxy = th.ThreadsafeProxy(obj, thread.loop)
+    f = asyncio.ensure_future(proxy.coro_slow_cleanup(1, seconds))
+    await asyncio.sleep(0.2)
+    thread.force_stop()
+    try:
+        r = await asyncio.wait_for(f, seconds + 6)
+        return f"value:{r[0]}"
+    except asyncio.CancelledError:
+        return "cancelled"
+    except asyncio.TimeoutError:
+        return "HANG"
+    except BaseException as e:  # noqa: BLE001
+        return f"exc:{type(e).__name__}"
+
+
+async def rebind_scenario():
+    """the wrapped object re-binds an attribute after it was used through the proxy once: every use goes by what the attribute
+    is *now* (another coroutine, a plain method, something that is not callable)"""
+    import bellows.thread as th
+
+    thread = th.EventLoopThread()
+    await thread.start()
+    out = []
+    try:
+        class Box:
+            pass
+
+        box = Box()
+        ran = []
+
+        async def first(tag):
+            ran.append(("first", threading.get_ident()))
+            return ("first", tag)
+
+        async def second(tag):
+            ran.append(("second", threading.get_ident()))
+            return ("second", tag)
+
+        def plain(tag):
+            ran.append(("plain", threading.get_ident()))
+
+        proxy = th.ThreadsafeProxy(box, thread.loop)
+        box.hook = first
+        out.append(("first", (await asyncio.wait_for(proxy.hook(1), 5))[0]))
+        box.hook = second
+        out.append(("second", (await asyncio.wait_for(proxy.hook(2), 5))[0]))
+        box.hook = plain
+        r = proxy.hook(3)
+        await thread.run_coroutine_threadsafe(asyncio.sleep(0.02))
+        out.append(("plain", "queued" if r is None and ran[-1][0] == "plain" else f"r={r!r} ran={ran[-1][0]}"))
+        box.hook = 5
+        try:
+            proxy.hook
+            out.append(("noncallable", "accepted"))
+        except TypeError:
+            out.append(("noncallable", "refused"))
+    except BaseException as e:  # noqa: BLE001
+        out.append(("error", type(e).__name__))
+    finally:
+        thread.force_stop()
+    return out
+
+
 async def scenario(ctx_rows, burst):
     import bellows.thread as th
 
@@ -424,6 +505,10 @@ def run(ctx):
     slow_out = {}
     slow_thread = threading.Thread(target=lambda: slow_out.setdefault("rows", asyncio.run(slow_scenario(slow_secs))), daemon=True)
     slow_thread.start()
+    stop_secs = ctx.n(3.6, 8.0)
+    stop_out = {}
+    stop_thread = threading.Thread(target=lambda: stop_out.setdefault("r", asyncio.run(slow_stop_scenario(stop_secs))), daemon=True)
+    stop_thread.start()
     allrows = []
     for r in range(rounds):
         allrows.append(asyncio.run(scenario(None, ctx.n(200, 1000))))
@@ -492,6 +577,19 @@ def run(ctx):
         if obs != want:
             ctx.violation(f"a coroutine call from another loop that takes {slow_secs}s on the owner's loop: the caller saw {obs}, expected {want} (the result or the exception of the method, however long it takes)",
                           {"kind": "slow"}, {"kind": "slow", "seconds": slow_secs})
+    stop_thread.join(stop_secs + 30)
+    ctx.cov["evaluations"] += 1
+    ctx.count("stopping-with-slow-cleanup")
+    if stop_out.get("r") not in ("value:cleaned", "cancelled"):
+        ctx.violation(f"owner loop stopped with a coroutine call in flight whose clean-up takes {stop_secs}s: the caller saw {stop_out.get('r')}, expected the call's outcome "
+                      f"(its value once the clean-up is over, or a cancellation) - not to be left waiting", {"kind": "slow-stop"}, {"kind": "slow-stop", "seconds": stop_secs})
+    for kind, obs in asyncio.run(rebind_scenario()):
+        ctx.cov["evaluations"] += 1
+        ctx.count("rebound-attribute")
+        want = {"first": "first", "second": "second", "plain": "queued", "noncallable": "refused"}.get(kind)
+        if obs != want:
+            ctx.violation(f"attribute re-bound on the wrapped object after a first use through the proxy ({kind}): observed {obs}, expected {want}",
+                          {"kind": "rebind"}, {"kind": "rebind"})
     # owner loop alive but not running at the moment of the calls
     for started_before in (False, True):
         for _ in range(ctx.n(2, 6)):
@@ -540,6 +638,20 @@ def replay(ctx, obj):
         kinds, started, outcomes, stopped = asyncio.run(stopping_scenario(r["n_long"], r["n_cleanup"], r["seed"], r.get("immediate", False)))
         bad = [o for o in outcomes if o.endswith("HANG")] or (not stopped)
         print(f"replay stopping burst {kinds}: {outcomes} stopped={stopped}: {'FAILS' if bad else 'ok'}")
+        if bad:
+            print(f"VIOLATION property={ctx.pid} replay=replay")
+        return 1 if bad else 0
+    if r.get("kind") == "slow-stop":
+        o = asyncio.run(slow_stop_scenario(r["seconds"]))
+        bad = o not in ("value:cleaned", "cancelled")
+        print(f"replay stop with slow clean-up: {o}: {'FAILS' if bad else 'ok'}")
+        if bad:
+            print(f"VIOLATION property={ctx.pid} replay=replay")
+        return 1 if bad else 0
+    if r.get("kind") == "rebind":
+        rows = asyncio.run(rebind_scenario())
+        bad = [x for x in rows if x[1] != {"first": "first", "second": "second", "plain": "queued", "noncallable": "refused"}.get(x[0])]
+        print(f"replay re-bound attribute: {rows}: {'FAILS' if bad else 'ok'}")
         if bad:
             print(f"VIOLATION property={ctx.pid} replay=replay")
         return 1 if bad else 0
